@@ -270,3 +270,85 @@ def shape_sig(e):
     if e["kind"] == "seg":
         return ["seg"] + [shape_sig(c) for c in e["es"]]
     return e["kind"] + ("+E" if e.get("a1") else "")
+
+
+# ------------------------------------------------------------------ vectorised variants (one scalar tree per batch entry)
+def vary_tree(rng, tree):
+    """A copy of `tree` with the same structure/names/kinds but (some) different numbers in the leaves."""
+    import copy
+    t = copy.deepcopy(tree)
+
+    def go(e):
+        if e["kind"] == "seg":
+            for c in e["es"]:
+                go(c)
+        elif e["kind"] == "map" and rng.random() < 0.6:
+            e["a0"] = gen_sparse(rng, rng.randrange(0, 4))
+            e["a1"] = gen_sparse(rng, rng.randrange(0, 3), -1, 1)
+        elif e["kind"] == "ctm" and rng.random() < 0.6:
+            e["a0"] = gen_sparse(rng, rng.randrange(0, 4))
+        elif e["kind"] == "non" and rng.random() < 0.6:
+            e.update(dE=rng.choice([0, 1, 2, -1]), k=rng.choice([0, 1, -1, 2]))
+        if e["kind"] in ("map", "ctm", "non") and rng.random() < 0.3:
+            e["len"] = rng.choice([0, 1, 2, 3])
+    go(t)
+    return t
+
+
+def _stack_or_single(vals):
+    if all(v == vals[0] for v in vals):
+        return vals[0]
+    return vals
+
+
+def build_batched(trees):
+    """list of same-shaped scalar trees -> one real element whose parameters carry a leading batch dimension where they differ"""
+    e = trees[0]
+    k = e["kind"]
+    if k == "seg":
+        return cheetah.Segment([build_batched([t["es"][i] for t in trees]) for i in range(len(e["es"]))], name=e["name"])
+    ln = _stack_or_single([float(t["len"]) for t in trees])
+    if k == "map":
+        return ZMap(_stack_or_single([dense(t["a0"], True) for t in trees]), _stack_or_single([dense(t["a1"], False) for t in trees]), ln, name=e["name"])
+    if k == "ctm":
+        m = torch.tensor(_stack_or_single([dense(t["a0"], True) for t in trees]), dtype=DT)
+        lt = torch.tensor(ln, dtype=DT)
+        if m.dim() == 3 and lt.dim() == 0:
+            lt = lt.expand(m.shape[0]).clone()
+        return cheetah.CustomTransferMap(m, length=lt, name=e["name"])
+    if k == "marker":
+        return cheetah.Marker(name=e["name"])
+    if k == "non":
+        return ZNon(_stack_or_single([float(t["dE"]) for t in trees]), _stack_or_single([float(t["k"]) for t in trees]),
+                    _stack_or_single([float(t["thr"]) for t in trees]), ln, name=e["name"])
+    raise ValueError(k)
+
+
+def build_beam_batched(beams):
+    b0 = beams[0]
+    if b0["type"] == "parts":
+        return cheetah.ParticleBeam(torch.tensor(_stack_or_single([b["ps"] for b in beams]), dtype=DT),
+                                    torch.tensor(_stack_or_single([float(b["E"]) for b in beams]), dtype=DT),
+                                    particle_charges=torch.tensor(b0["q"], dtype=DT), survival_probabilities=torch.tensor(b0["s"], dtype=DT), dtype=DT)
+    return cheetah.ParameterBeam(torch.tensor(_stack_or_single([b["mu"] for b in beams]), dtype=DT),
+                                 torch.tensor(_stack_or_single([b["cov"] for b in beams]), dtype=DT),
+                                 torch.tensor(_stack_or_single([float(b["E"]) for b in beams]), dtype=DT),
+                                 total_charge=torch.tensor(float(b0["Q"]), dtype=DT), dtype=DT)
+
+
+def observe_beam_entry(b, i, nb):
+    """entry i of a (possibly) batched real beam as a scalar observation dict"""
+    def ent(t, trailing):
+        t = t.detach()
+        if t.dim() > trailing:
+            if t.shape[0] == 1:
+                return t[0]
+            return t[i]
+        return t
+    if isinstance(b, cheetah.ParticleBeam):
+        return {"type": "parts", "ps": _ints(ent(b.particles, 2)), "E": _ints(ent(b.energy, 0)), "q": _ints(ent(b.particle_charges, 1)),
+                "s": _ints(ent(b.survival_probabilities, 1))}
+    tq = b.total_charge
+    if tq.dim() == 1 and tq.shape[0] == 1 and nb != 1:
+        tq = tq[0]
+    return {"type": "param", "mu": _ints(ent(b._mu, 1)), "cov": _ints(ent(b._cov, 2)), "E": _ints(ent(b.energy, 0)), "Q": _ints(ent(tq, 0))}
